@@ -18,7 +18,9 @@
 (* outside the window, for the client's own schedule; none / inside for    *)
 (* the global one), and prints, per                                        *)
 (* combination, what ClientsCore!Effective demands for a request from the  *)
-(* client's address (hit) and from an address nobody owns (miss).  The Go  *)
+(* client's address (hit), from an address nobody owns (miss), and from    *)
+(* that address with a ClientID that only resembles the client's mac       *)
+(* (like).  The Go                                                         *)
 (* harness builds the client the way package home does (the per-client     *)
 (* safe-search engine exists only when its own safe search is enabled) and *)
 (* compares the filtering.Settings produced by Settings() +                *)
@@ -34,6 +36,7 @@ GSvcs  == {{}, {"a"}}               \* global blocked services
 CSvcs  == {{}, {"a"}, {"b"}}        \* the client's own: none / same as global / different
 
 Me == <<"ip", 5, 0>>
+MyMac == <<"mac", 1, 0>>
 
 \* State of a blocked-services schedule when the request arrives.  "none" and
 \* "out" are the same for the spec (no pause in effect) and differ in how the
@@ -42,12 +45,14 @@ CSched == {"none", "in", "out"}
 GSched == {"none", "in"}
 
 Vector(g, gs, gp, v, cs, cp, own, bs) ==
-    LET c == [name |-> "n1", ids |-> {Me}, own |-> own, bs |-> bs, vals |-> v, svcs |-> cs,
+    LET c == [name |-> "n1", ids |-> {Me, MyMac}, own |-> own, bs |-> bs, vals |-> v, svcs |-> cs,
               pause |-> (cp = "in")]
         G == [vals |-> g, svcs |-> gs, pause |-> (gp = "in")]
     IN [g |-> g, gs |-> gs, gp |-> gp, v |-> v, cs |-> cs, cp |-> cp, own |-> own, bs |-> bs,
         hit  |-> Effective({c}, <<>>, G, NoId, 5),
-        miss |-> Effective({c}, <<>>, G, NoId, 12)]
+        miss |-> Effective({c}, <<>>, G, NoId, 12),
+        \* a foreign address presenting a ClientID spelled like the client's mac
+        like |-> Effective({c}, <<>>, G, <<"cidmac", 1, 0>>, 12)]
 
 Init == st = "pick" /\ vec = <<>>
 
@@ -73,4 +78,5 @@ OptedOutAndPausedBlocksNothing ==
 ForeignRequestGetsGlobal ==
     Done => /\ vec.miss.who = "" /\ vec.miss.vals = vec.g
             /\ vec.miss.svcs = IF vec.gp = "in" THEN {} ELSE vec.gs
+            /\ vec.like = vec.miss
 =============================================================================
